@@ -1047,6 +1047,10 @@ func (x *vTransRun) afterLinkLoss(c *vTransConn) {
 		}
 		x.out.stat("observed:C10:no-reply-after-link-loss")
 		x.lost[t] = true
+		if os.Getenv("VERIF_TRANS_STRICT") != "" {
+			// classified: genuine (the request was forwarded and is queued / held at the leader; its client is never told anything)
+			x.report("C10:no-reply-after-link-loss", fmt.Sprintf("request %d of connection %d was forwarded; its link lost its socket; only the latest in-flight request of the link is answered (RESULT_ERROR) — this one gets no answer at all", t, c.idx))
+		}
 	}
 	c.link = nil
 	c.linkInit = -1
@@ -1204,7 +1208,7 @@ func (x *vTransRun) evLeaderFrames(c *vTransConn) {
 		toks := x.w.tokOf(b[3:19])
 		tok, terr := strconv.Atoi(toks)
 		var op string
-		expect := false
+		expect, fresh := false, false
 		switch b[2] {
 		case protocol.COMMAND_LOCK, protocol.COMMAND_UNLOCK:
 			k := "L"
@@ -1217,13 +1221,20 @@ func (x *vTransRun) evLeaderFrames(c *vTransConn) {
 		case protocol.COMMAND_INIT:
 			op = fmt.Sprintf("r %d I %s %d %d", c.idx, toks, b[19], b[20])
 			expect = c.kind == 'b' && terr == nil && c.linkInit == tok
+			l.mu.Lock()
+			fresh = expect && l.downUsed == 1 // the answer to the INIT that Open itself sent on this link instance
+			l.mu.Unlock()
 		case protocol.COMMAND_CALL:
 			op = fmt.Sprintf("r %d C %s %d %s", c.idx, toks, b[19], vTransDataStr(f.data))
 			expect = c.kind == 'b'
 		default:
 			op = fmt.Sprintf("r %d X", c.idx)
 		}
-		if expect {
+		if expect && fresh {
+			// the reader goroutine of a fresh link may have read this frame before CheckClient attached the link object to the
+			// connection (`serverProtocol == nil`): then it was dropped unseen and will never be relayed
+			x.waitFor(func() bool { return x.peekMatch(c, f) }, 250*time.Millisecond)
+		} else if expect {
 			x.waitFor(func() bool { return x.peekMatch(c, f) }, 4*time.Second)
 		} else {
 			time.Sleep(15 * time.Millisecond)
@@ -1237,6 +1248,12 @@ func (x *vTransRun) evLeaderFrames(c *vTransConn) {
 			}
 			c.cli.mu.Unlock()
 			cl = x.takeClientN(c, 1)
+		}
+		if fresh && len(cl) == 0 {
+			op = "rx" + op[1:]
+			x.out.stat("observed:C10:frame-read-before-link-attached")
+			x.ev(op, "-|"+vTransJoin(x.takeForwarded(nil)))
+			continue
 		}
 		// did the answer overtake Write's bookkeeping? (the link object still has the command as its latest in-flight one)
 		if terr == nil && c.latest == tok && x.stillLatest(c, f) {
